@@ -266,39 +266,68 @@ def check_assumptions(prop_id):
     return len(thms), discharged, sorted(axioms), problems
 
 
+SHARD_BYTES = int(os.environ.get("VERIF_SHARD_BYTES", str(3 * 1024 * 1024)))
+
+
 def run_shards(prop_id, header, model, ok, input_type, cases, shard=300, timeout=900):
     """cases: list of (coq_input, coq_sx).  Writes Cases/<id>_k.v, evaluates in the kernel VM,
-    returns list of (index, agree, ok) for the cases where not (agree && ok)."""
+    returns list of (index, agree, ok) for the cases where not (agree && ok).
+    A shard holds at most `shard` cases and about SHARD_BYTES of literal text; a shard the evaluator does not finish
+    (time or memory) is split in two and evaluated again, down to single cases, before it counts as a failure."""
     CASES.mkdir(exist_ok=True)
     for old in CASES.glob(f"{prop_id}_s*.v*"):
         old.unlink()
-    files = []
-    for k in range(0, len(cases), shard):
-        chunk = cases[k:k + shard]
-        f = CASES / f"{prop_id}_s{k // shard}.v"
+    counter = [0]
+    written = []
+
+    def write(base, chunk):
+        f = CASES / f"{prop_id}_s{counter[0]}.v"
+        counter[0] += 1
         lines = [header, "Open Scope Z_scope."]
         for j, (i, o) in enumerate(chunk):
             lines.append(f"Definition c{j} : ({input_type}) * sx := ({i}, {o}).")
         lines.append(f"Definition cases : list (({input_type}) * sx) := [" + "; ".join(f"c{j}" for j in range(len(chunk))) + "].")
         lines.append(f"Eval vm_compute in (mismatches {model} {ok} cases).")
         f.write_text("\n".join(lines) + "\n")
-        files.append((k, f))
+        written.append(f)
+        return (base, f, chunk)
+
+    files = []
+    k = 0
+    while k < len(cases):
+        size, j = 0, k
+        while j < len(cases) and j - k < shard and (j == k or size + len(cases[j][0]) + len(cases[j][1]) <= SHARD_BYTES):
+            size += len(cases[j][0]) + len(cases[j][1])
+            j += 1
+        files.append(write(k, cases[k:j]))
+        k = j
 
     def one(item):
-        base, f = item
+        base, f, chunk = item
         rc, out = sh(f"ulimit -s unlimited; timeout {timeout} coqc -Q . SPP Cases/{f.name}", cwd=COQ, timeout=timeout + 30)
-        return base, f, rc, out
+        return base, f, chunk, rc, out
 
     bad, failures = [], []
-    with ThreadPoolExecutor(max_workers=int(os.environ.get("VERIF_JOBS", "16"))) as ex:
-        for base, f, rc, out in ex.map(one, files):
-            if rc != 0 or "= " not in out:
-                failures.append((f.name, out[-600:]))
-                continue
-            flat = " ".join(out.split())
-            for m in re.finditer(r"\((\d+)%nat, (true|false), (true|false)\)", flat):
-                bad.append((base + int(m.group(1)), m.group(2) == "true", m.group(3) == "true"))
-    for _, f in files:
+    jobs = int(os.environ.get("VERIF_JOBS", "16"))
+    todo = files
+    while todo:
+        retry = []
+        with ThreadPoolExecutor(max_workers=jobs) as ex:
+            for base, f, chunk, rc, out in ex.map(one, todo):
+                if rc != 0 or "= " not in out:
+                    if len(chunk) > 1 and not out.strip():      # no diagnostic: the evaluator ran out of time or memory
+                        h = len(chunk) // 2
+                        retry.append(write(base, chunk[:h]))
+                        retry.append(write(base + h, chunk[h:]))
+                    else:
+                        failures.append((f.name, out[-600:]))
+                    continue
+                flat = " ".join(out.split())
+                for m in re.finditer(r"\((\d+)%nat, (true|false), (true|false)\)", flat):
+                    bad.append((base + int(m.group(1)), m.group(2) == "true", m.group(3) == "true"))
+        todo = retry
+        jobs = max(2, jobs // 2)                                 # retried shards are the heavy ones: fewer at a time
+    for f in written:
         for ext in (".vo", ".vok", ".vos", ".glob"):
             p = f.with_suffix(ext)
             if p.exists():
